@@ -148,7 +148,7 @@ def run(ctx):
             for padding in ("TORUS", "SAME", None, [[0, 1]] * D):
                 jobs.append((ctx.repo, "convolve_with", D, N, (3,) * D, 1, 1 if D == 2 else 0, 1, 1, 1, flags, 1, padding, None, 1))
     by = {}
-    for job, r in zip(jobs, ctx.pmap(worker, jobs)):
+    for job, r in ctx.pairs(worker, jobs):
         cfg = r["cfg"]
         nontriv = cfg["image_k"] + cfg["filter_k"] > 0 or cfg["stride"] != 1 or cfg["rhs_dilation"] != 1 or cfg["lhs_dilation"] is not None or (isinstance(cfg["is_torus"], list) and len(set(cfg["is_torus"])) > 1)
         ev.obligation("conv", not r["problems"], tuple(str(v) for v in cfg.values()) if nontriv else None, sample=cfg if ev.obligations % 71 == 0 else None)
@@ -161,7 +161,7 @@ def run(ctx):
                 pj.append((ctx.repo, D, N, k, 2))
         if D == 2:
             pj.append((ctx.repo, D, (3, 6), 1, 3))
-    for job, r in zip(pj, ctx.pmap(pool_worker, pj)):
+    for job, r in ctx.pairs(pool_worker, pj):
         cfg = r["cfg"]
         ev.obligation("pool", not r["problems"], tuple(str(v) for v in cfg.values()), sample=cfg if cfg["k"] == 1 and D == 2 else None)
         for kind, what, site in r["problems"]:
